@@ -35,7 +35,8 @@ fn install_panic_hook() {
         } else {
             "?".into()
         };
-        PANIC_MSG.with(|p| *p.borrow_mut() = format!("{msg} @ {loc}"));
+        let st = real::STAGE.with(|s| s.borrow().clone());
+        PANIC_MSG.with(|p| *p.borrow_mut() = format!("{msg} @ {loc} during {st}"));
     }));
 }
 
@@ -48,6 +49,7 @@ struct Args {
     caps: Caps,
     positional: Vec<String>,
     max_viol: usize,
+    gc_alloc: bool,
 }
 
 fn parse_hist(s: &str) -> Result<Vec<Op>, String> {
@@ -62,7 +64,7 @@ fn parse_hist(s: &str) -> Result<Vec<Op>, String> {
 }
 
 fn parse_args(a: &[String]) -> Result<Args, String> {
-    let mut r = Args { part: "full".into(), nodes: 3, depth: 4, prefix: vec![], workers: 16, caps: Caps::default(), positional: vec![], max_viol: 100000 };
+    let mut r = Args { part: "full".into(), nodes: 3, depth: 4, prefix: vec![], workers: 16, caps: Caps::default(), positional: vec![], max_viol: 100000, gc_alloc: false };
     let mut i = 0;
     while i < a.len() {
         let need = |i: usize| a.get(i + 1).cloned().ok_or_else(|| format!("{} needs a value", a[i]));
@@ -91,6 +93,7 @@ fn parse_args(a: &[String]) -> Result<Args, String> {
                 r.max_viol = need(i)?.parse().map_err(|_| "bad --max-viol")?;
                 i += 1;
             }
+            "--gc-alloc" => r.gc_alloc = true,
             "--prefix" => {
                 r.prefix = parse_hist(&need(i)?)?;
                 i += 1;
@@ -153,7 +156,7 @@ fn cmd_hist(a: &Args) -> i32 {
     let mut trace = vec![];
     let n = a.nodes;
     let caps = a.caps;
-    let res = std::panic::catch_unwind(std::panic::AssertUnwindSafe(|| real::run_history(n, sizes, caps, &hist, true, Some(&mut trace))));
+    let res = std::panic::catch_unwind(std::panic::AssertUnwindSafe(|| real::run_history(n, sizes, caps, a.gc_alloc, &hist, true, Some(&mut trace))));
     let out = match res {
         Ok(Ok(o)) => json!({"valid": true, "violation": null, "final": o.render, "trace": trace, "flags": flag_names(o.flags)}),
         Ok(Err(None)) => json!({"valid": false, "violation": null}),
@@ -171,7 +174,7 @@ fn cmd_hist(a: &Args) -> i32 {
 /// Stable class of a panic message (file:line and numbers removed from the identity).
 fn panic_class(msg: &str) -> String {
     let head = msg.split(" @ ").next().unwrap_or(msg);
-    let loc = msg.split(" @ ").nth(1).unwrap_or("");
+    let loc = msg.split(" @ ").nth(1).unwrap_or("").split(" during ").next().unwrap_or("");
     let file = loc.rsplit('/').next().unwrap_or(loc).split(':').next().unwrap_or("");
     format!("panic: {} [{}]", head.chars().take(80).collect::<String>(), file)
 }
@@ -208,7 +211,38 @@ fn cmd_worker(a: &Args) -> i32 {
             break;
         }
         let mut it = line.split_whitespace();
-        if it.next() != Some("P") {
+        let cmd = it.next();
+        if cmd == Some("H") {
+            // one whole history, compared after every step: "O" ok, "I" invalid, "V <json>" (then exit)
+            let hx = it.next().unwrap_or("");
+            let hist: Vec<Op> = (0..hx.len() / 2).map(|i| ops[usize::from_str_radix(&hx[2 * i..2 * i + 2], 16).unwrap()]).collect();
+            let n = a.nodes;
+            let caps = a.caps;
+            let res = std::panic::catch_unwind(std::panic::AssertUnwindSafe(|| real::run_history(n, sizes, caps, a.gc_alloc, &hist, true, None)));
+            match res {
+                Ok(Ok(_)) => {
+                    let _ = writeln!(out, "O");
+                }
+                Ok(Err(None)) => {
+                    let _ = writeln!(out, "I");
+                }
+                Ok(Err(Some(v))) => {
+                    let _ = writeln!(out, "V {}", viol_json(&hist, &v));
+                    out.flush().ok();
+                    unsafe { _exit(0) }
+                }
+                Err(_) => {
+                    let msg = PANIC_MSG.with(|p| p.borrow().clone());
+                    let v = json!({"hist": hist.iter().map(Op::show).collect::<Vec<_>>(), "kind": "panic", "detail": msg, "expected": "no panic", "observed": panic_class(&msg), "step": -1});
+                    let _ = writeln!(out, "V {v}");
+                    out.flush().ok();
+                    unsafe { _exit(0) }
+                }
+            }
+            out.flush().ok();
+            continue;
+        }
+        if cmd != Some("P") {
             continue;
         }
         let start: usize = it.next().unwrap().parse().unwrap();
@@ -216,6 +250,7 @@ fn cmd_worker(a: &Args) -> i32 {
         let parent: Vec<Op> = (0..hx.len() / 2).map(|i| ops[usize::from_str_radix(&hx[2 * i..2 * i + 2], 16).unwrap()]).collect();
         // model of the parent
         let mut m = M::new(a.nodes, sizes, a.caps);
+        m.gc_alloc = a.gc_alloc;
         for &op in &parent {
             assert!(m.enabled(op), "parent history invalid");
             m.apply(op);
@@ -229,7 +264,7 @@ fn cmd_worker(a: &Args) -> i32 {
             *hist.last_mut().unwrap() = op;
             let n = a.nodes;
             let caps = a.caps;
-            let res = std::panic::catch_unwind(std::panic::AssertUnwindSafe(|| real::run_history(n, sizes, caps, &hist, false, None)));
+            let res = std::panic::catch_unwind(std::panic::AssertUnwindSafe(|| real::run_history(n, sizes, caps, a.gc_alloc, &hist, false, None)));
             match res {
                 Ok(Ok(o)) => {
                     let _ = writeln!(out, "T {idx} {:x} {:x} {:x} {:x}", o.key.0, o.key.1, o.digest, o.flags);
@@ -271,6 +306,7 @@ fn spawn_worker(a: &Args) -> Proc {
     let exe = std::env::current_exe().expect("current_exe");
     let mut child = Command::new(exe)
         .args(["worker", "--part", &a.part, "--nodes", &a.nodes.to_string(), "--boxes", &a.caps.boxes.to_string()])
+        .args(if a.gc_alloc { vec!["--gc-alloc"] } else { vec![] })
         .stdin(Stdio::piped())
         .stdout(Stdio::piped())
         .stderr(Stdio::null())
@@ -322,7 +358,8 @@ fn run_chunk(a: &Args, ops: &[Op], proc_: &mut Option<Proc>, base: u32, parents:
                 let status = p.child.wait().ok();
                 *proc_ = None;
                 let m = {
-                    let mut m = M::new(a.nodes, Sizes { node: 0, map: 0, weak: 0, eph: 0, anchor: 0 }, a.caps);
+                    let mut m = M::new(a.nodes, Sizes { node: 1, map: 1, weak: 1, eph: 1, anchor: 1 }, a.caps);
+                    m.gc_alloc = a.gc_alloc;
                     for &b in parents[pi] {
                         m.apply(ops[b as usize]);
                     }
@@ -388,6 +425,127 @@ fn run_chunk(a: &Args, ops: &[Op], proc_: &mut Option<Proc>, base: u32, parents:
     res
 }
 
+
+/// Result of running one whole history in a worker: None = no violation, Some(v) = violation JSON; Err = invalid.
+fn eval_hist(a: &Args, proc_: &mut Option<Proc>, hist: &[u8], ops: &[Op], respawns: &AtomicUsize) -> Result<Option<serde_json::Value>, ()> {
+    for _attempt in 0..3 {
+        if proc_.is_none() {
+            *proc_ = Some(spawn_worker(a));
+            respawns.fetch_add(1, Ordering::Relaxed);
+        }
+        let p = proc_.as_mut().unwrap();
+        let hx: String = hist.iter().map(|b| format!("{b:02x}")).collect();
+        if p.inp.write_all(format!("H {hx}\n").as_bytes()).is_err() || p.inp.flush().is_err() {
+            let _ = p.child.kill();
+            let _ = p.child.wait();
+            *proc_ = None;
+            continue;
+        }
+        let mut line = String::new();
+        let n = p.out.read_line(&mut line).unwrap_or(0);
+        if n == 0 {
+            let status = p.child.wait().ok();
+            *proc_ = None;
+            let h: Vec<String> = hist.iter().map(|&b| ops[b as usize].show()).collect();
+            return Ok(Some(json!({"hist": h, "kind": "crash", "detail": format!("worker died ({status:?}) while replaying this history"), "expected": "no crash", "observed": "Abort", "step": -1})));
+        }
+        return match line.chars().next() {
+            Some('O') => Ok(None),
+            Some('I') => Err(()),
+            Some('V') => {
+                let _ = p.child.wait();
+                *proc_ = None;
+                Ok(Some(serde_json::from_str(line[2..].trim()).unwrap_or(json!({"kind": "unparsable"}))))
+            }
+            _ => Ok(Some(json!({"kind": "protocol", "detail": line}))),
+        };
+    }
+    Ok(Some(json!({"kind": "machinery", "detail": "could not talk to a worker"})))
+}
+
+/// Rename node ids so that every alloc takes the lowest free id (the only alloc the alphabet offers).
+/// Returns None when the history is not valid after renaming.
+fn renumber(a: &Args, ops: &[Op], code_of: &HashMap<Op, u8>, hist: &[u8]) -> Option<Vec<u8>> {
+    let dummy = Sizes { node: 1, map: 1, weak: 1, eph: 1, anchor: 1 };
+    let mut m = M::new(a.nodes, dummy, a.caps);
+    m.gc_alloc = a.gc_alloc;
+    let mut map: Vec<Option<u8>> = vec![None; a.nodes as usize];
+    let mut out = Vec::with_capacity(hist.len());
+    for &b in hist {
+        let op = ops[b as usize];
+        let t = |x: u8| map.get(x as usize).copied().flatten();
+        let new = match op {
+            Op::Alloc(o) => {
+                let f = m.lowest_free()?;
+                map[o as usize] = Some(f);
+                Op::Alloc(f)
+            }
+            Op::Clone(i) => Op::Clone(t(i)?),
+            Op::Drop(i) => Op::Drop(t(i)?),
+            Op::Link(i, j) => Op::Link(t(i)?, t(j)?),
+            Op::Unlink(i, j) => Op::Unlink(t(i)?, t(j)?),
+            Op::Follow(i, j) => Op::Follow(t(i)?, t(j)?),
+            Op::HostWeak(i) => Op::HostWeak(t(i)?),
+            Op::HostEph(i, j) => Op::HostEph(t(i)?, t(j)?),
+            Op::NodeWeak(i, j) => Op::NodeWeak(t(i)?, t(j)?),
+            Op::NodeEph(i, j, k) => Op::NodeEph(t(i)?, t(j)?, t(k)?),
+            Op::MapStore(i) => Op::MapStore(t(i)?),
+            Op::MapTake(i) => Op::MapTake(t(i)?),
+            Op::MapInsert(i, j) => Op::MapInsert(t(i)?, t(j)?),
+            Op::MapRemove(i) => Op::MapRemove(t(i)?),
+            Op::ArmHost(i) => Op::ArmHost(t(i)?),
+            Op::ArmNode(i, j) => Op::ArmNode(t(i)?, t(j)?),
+            o @ (Op::DropHostWeak(_) | Op::UpgradeKeep(_) | Op::DropHostEph(_) | Op::TakeValue(_) | Op::MapNew | Op::MapDropHost | Op::Collect) => o,
+        };
+        if !part_allows(&a.part, &new) || !m.enabled(new) {
+            return None;
+        }
+        m.apply(new);
+        out.push(*code_of.get(&new)?);
+    }
+    Some(out)
+}
+
+type Memo = std::sync::Mutex<HashMap<Vec<u8>, Option<(String, serde_json::Value)>>>;
+
+/// Greedy one-op-at-a-time reduction preserving the violation kind; deterministic.
+fn minimize(a: &Args, ops: &[Op], code_of: &HashMap<Op, u8>, proc_: &mut Option<Proc>, memo: &Memo, hist: Vec<u8>, kind: &str, v0: serde_json::Value, respawns: &AtomicUsize, evals: &AtomicUsize) -> (Vec<u8>, serde_json::Value) {
+    let mut cur = hist;
+    let mut curv = v0;
+    loop {
+        let mut progressed = false;
+        for i in 0..cur.len() {
+            let mut cand = cur.clone();
+            cand.remove(i);
+            let Some(cand) = renumber(a, ops, code_of, &cand) else { continue };
+            let cached = memo.lock().unwrap().get(&cand).cloned();
+            let r = match cached {
+                Some(r) => r,
+                None => {
+                    evals.fetch_add(1, Ordering::Relaxed);
+                    let r = match eval_hist(a, proc_, &cand, ops, respawns) {
+                        Ok(Some(v)) => Some((v["kind"].as_str().unwrap_or("?").to_string(), v)),
+                        Ok(None) | Err(()) => None,
+                    };
+                    memo.lock().unwrap().insert(cand.clone(), r.clone());
+                    r
+                }
+            };
+            if let Some((k, v)) = r {
+                if k == kind {
+                    cur = cand;
+                    curv = v;
+                    progressed = true;
+                    break;
+                }
+            }
+        }
+        if !progressed {
+            return (cur, curv);
+        }
+    }
+}
+
 fn cmd_explore(a: &Args) -> i32 {
     let t0 = std::time::Instant::now();
     let ops = all_ops(a.nodes);
@@ -395,6 +553,7 @@ fn cmd_explore(a: &Args) -> i32 {
     // root
     let dummy = Sizes { node: 1, map: 1, weak: 1, eph: 1, anchor: 1 };
     let mut root = M::new(a.nodes, dummy, a.caps);
+    root.gc_alloc = a.gc_alloc;
     let mut root_hist: Vec<u8> = vec![];
     for &op in &a.prefix {
         if !root.enabled(op) {
@@ -416,6 +575,7 @@ fn cmd_explore(a: &Args) -> i32 {
     let mut flag_counts = vec![0u64; feat::NAMES.len()];
     let mut nontrivial: u64 = 0;
     let mut violations: Vec<serde_json::Value> = vec![];
+    let mut raw_viol: Vec<Vec<u8>> = vec![];
     let mut per_depth = vec![];
     let mut samples: Vec<serde_json::Value> = vec![];
     let respawns = AtomicUsize::new(0);
@@ -423,6 +583,7 @@ fn cmd_explore(a: &Args) -> i32 {
     let mut frontier: Vec<Vec<u8>> = vec![root_hist.clone()];
     let mut depth_done = 0;
     let mut viol_capped = false;
+    let mut viol_dropped: u64 = 0;
     for d in 0..a.depth {
         if frontier.is_empty() {
             depth_done = a.depth; // the whole reachable space is exhausted
@@ -483,6 +644,9 @@ fn cmd_explore(a: &Args) -> i32 {
                                         } else if *d0 != digest {
                                             let mut hist: Vec<Op> = frontier[parent as usize].iter().map(|&b| ops[b as usize]).collect();
                                             hist.push(ops[op as usize]);
+                                            let mut hc = frontier[parent as usize].clone();
+                                            hc.push(op);
+                                            raw_viol.push(hc);
                                             violations.push(json!({"hist": hist.iter().map(Op::show).collect::<Vec<_>>(), "kind": "merge-divergence", "detail": "a history reaching an already known model state shows a different real observation than the first history that reached it", "expected": format!("{:x}", *d0), "observed": format!("{digest:x}"), "step": hist.len() - 1}));
                                         } else {
                                             cross_ok += 1;
@@ -502,11 +666,15 @@ fn cmd_explore(a: &Args) -> i32 {
                                     }
                                 }
                             }
-                            Res::V { v, .. } => {
+                            Res::V { parent, op, v } => {
                                 if violations.len() < a.max_viol {
+                                    let mut h = frontier[parent as usize].clone();
+                                    h.push(op);
+                                    raw_viol.push(h);
                                     violations.push(v);
                                 } else {
                                     viol_capped = true;
+                                    viol_dropped += 1;
                                 }
                             }
                         }
@@ -517,6 +685,43 @@ fn cmd_explore(a: &Args) -> i32 {
         per_depth.push(json!({"depth": a.prefix.len() + d + 1, "parents": frontier.len(), "new_states": states - s0, "transitions": transitions - t0l}));
         frontier = next_frontier;
         depth_done = d + 1;
+    }
+    // ---- reduce every violating history to a 1-minimal witness of the same kind; group by witness
+    let evals = AtomicUsize::new(0);
+    let mut witnesses: Vec<serde_json::Value> = vec![];
+    if !violations.is_empty() {
+        let memo: Memo = std::sync::Mutex::new(HashMap::new());
+        let nextv = AtomicUsize::new(0);
+        let results: std::sync::Mutex<Vec<Option<(Vec<u8>, serde_json::Value)>>> = std::sync::Mutex::new(vec![None; violations.len()]);
+        std::thread::scope(|sc| {
+            for pr in procs.iter_mut() {
+                let (violations, raw_viol, nextv, results, memo, ops, code_of, respawns, evals) = (&violations, &raw_viol, &nextv, &results, &memo, &ops, &code_of, &respawns, &evals);
+                sc.spawn(move || {
+                    loop {
+                        let i = nextv.fetch_add(1, Ordering::Relaxed);
+                        if i >= violations.len() {
+                            break;
+                        }
+                        let kind = violations[i]["kind"].as_str().unwrap_or("?").to_string();
+                        let r = if kind == "merge-divergence" { (raw_viol[i].clone(), violations[i].clone()) } else { minimize(a, ops, code_of, pr, memo, raw_viol[i].clone(), &kind, violations[i].clone(), respawns, evals) };
+                        results.lock().unwrap()[i] = Some(r);
+                    }
+                });
+            }
+        });
+        let results = results.into_inner().unwrap();
+        let mut groups: BTreeMap<(Vec<u8>, String), (serde_json::Value, u64, usize)> = BTreeMap::new();
+        for (i, r) in results.into_iter().enumerate() {
+            let (h, v) = r.unwrap();
+            let kind = v["kind"].as_str().unwrap_or("?").to_string();
+            let e = groups.entry((h, kind)).or_insert((v, 0, i));
+            e.1 += 1;
+        }
+        let mut gl: Vec<_> = groups.into_iter().collect();
+        gl.sort_by_key(|((h, k), _)| (h.len(), h.clone(), k.clone()));
+        for ((h, _k), (v, count, first)) in gl {
+            witnesses.push(json!({"hist": h.iter().map(|&b| ops[b as usize].show()).collect::<Vec<_>>(), "kind": v["kind"], "detail": v["detail"], "expected": v["expected"], "observed": v["observed"], "step": v["step"], "raw_count": count, "raw_example": violations[first]["hist"]}));
+        }
     }
     for p in procs.iter_mut() {
         if let Some(mut p) = p.take() {
@@ -532,8 +737,8 @@ fn cmd_explore(a: &Args) -> i32 {
             "alphabet": ops.iter().filter(|o| part_allows(&a.part, o)).count(),
             "states": states, "transitions": transitions, "merged": merged, "merged_cross_compared": cross_ok,
             "distinct_observations": digests.len(), "nontrivial_transitions": nontrivial, "features": flags_json,
-            "violations": violations, "violations_capped": viol_capped, "per_depth": per_depth, "samples": samples,
-            "worker_respawns": respawns.load(Ordering::Relaxed), "boxes_cap": a.caps.boxes,
+            "raw_violations": violations.len() as u64 + viol_dropped, "witnesses": witnesses, "minimize_evals": evals.load(Ordering::Relaxed), "violations_capped": viol_capped, "per_depth": per_depth, "samples": samples,
+            "worker_respawns": respawns.load(Ordering::Relaxed), "boxes_cap": a.caps.boxes, "gc_alloc": a.gc_alloc,
             "mutation": std::env::var("VC09_MUTATE").unwrap_or_default(),
             "seconds": t0.elapsed().as_secs_f64(),
         })
